@@ -394,10 +394,71 @@ def _bool_store(ctx):
     ctx.assigns.append("__CPROVER_object_upto(%s, %d)" % (mem.scalar, ctx.n))
 
 
+def _cplx_elem(mem, w, k, old=False):
+    e = "((f%d*)%s)[%d]" % (w, mem.scalar, k)
+    if old:
+        e = "__CPROVER_old(%s)" % e
+    return "F2U%d(%s)" % (w, e)
+
+
+def _cplx_load(aligned):
+    """interleaved load: memory element i = (re, im) goes to lane i of the real and of the imaginary part; 2*size*sizeof(T) bytes are read"""
+    def build(ctx):
+        mem = [a for a in ctx.args if a.kind == "P"]
+        if len(mem) != 1 or not getattr(mem[0], "complex", False) or mem[0].tid != ctx.tid:
+            raise Unsupported("not an interleaved complex load of the batch's own element type")
+        mem = mem[0]
+        R = ctx.ret = bind_ret(ctx, "C")
+        nbytes = 2 * ctx.n * ctx.w // 8
+        ctx.mem_bytes = {mem.cname: nbytes}
+        ctx.requires.append("__CPROVER_r_ok(%s, %d)" % (mem.scalar, nbytes))
+        if aligned:
+            ctx.requires.append("((u64)%s %% %d) == 0" % (mem.scalar, ARCHS[ctx.aid][1] // 8))
+        ens = []
+        for i in range(ctx.n):
+            ens.append("(%s == %s)" % (R.re(i), _cplx_elem(mem, ctx.w, 2 * i)))
+            ens.append("(%s == %s)" % (R.im(i), _cplx_elem(mem, ctx.w, 2 * i + 1)))
+        ctx.ensures += conj(ens)
+        ctx.uses_float = True
+    return build
+
+
+def _cplx_store(aligned):
+    def build(ctx):
+        mem = [a for a in ctx.args if a.kind == "P"]
+        z = [a for a in ctx.args if a.kind == "C"]
+        if len(mem) != 1 or len(z) != 1 or not getattr(mem[0], "complex", False) or mem[0].tid != ctx.tid:
+            raise Unsupported("not an interleaved complex store of the batch's own element type")
+        mem, z = mem[0], z[0]
+        nbytes = 2 * ctx.n * ctx.w // 8
+        ctx.mem_bytes = {mem.cname: nbytes}
+        ctx.requires.append("__CPROVER_w_ok(%s, %d)" % (mem.scalar, nbytes))
+        if aligned:
+            ctx.requires.append("((u64)%s %% %d) == 0" % (mem.scalar, ARCHS[ctx.aid][1] // 8))
+        ens = []
+        for i in range(ctx.n):
+            ens.append("(%s == %s)" % (_cplx_elem(mem, ctx.w, 2 * i), z.re(i)))
+            ens.append("(%s == %s)" % (_cplx_elem(mem, ctx.w, 2 * i + 1), z.im(i)))
+        ctx.ensures += conj(ens)
+        ctx.assigns.append("__CPROVER_object_upto(%s, %d)" % (mem.scalar, nbytes))
+        ctx.uses_float = True
+    return build
+
+
+row("load_complex_aligned", "P", "C", types=FLOAT_TYPES, prop="C16")(_cplx_load(True))
+row("load_complex_unaligned", "P", "C", types=FLOAT_TYPES, prop="C16")(_cplx_load(False))
+row("store_complex_aligned", "PC", "V", types=FLOAT_TYPES, prop="C16")(_cplx_store(True))
+row("store_complex_unaligned", "PC", "V", types=FLOAT_TYPES, prop="C16")(_cplx_store(False))
+row("store_aligned", "CP", "V", types=FLOAT_TYPES, prop="C16")(_cplx_store(True))
+row("store_unaligned", "CP", "V", types=FLOAT_TYPES, prop="C16")(_cplx_store(False))
+
+
 def _load(aligned):
     def build(ctx):
         if ctx.fn.cls_type is not None and ctx.fn.cls_type.kind == "bool":
             return _bool_load(aligned)(ctx)
+        if ctx.fn.cls_type is not None and ctx.fn.cls_type.kind == "cbatch":
+            return _cplx_load(aligned)(ctx)
         R = ctx.ret = bind_ret(ctx, "B")
         mem, _ = _mem_arg(ctx)
         nbytes = ctx.n * ctx.w // 8
@@ -475,8 +536,12 @@ row("load_aligned", "PM", "M", prop="C04")(_bool_load(True))
 row("load_unaligned", "PM", "M", prop="C04")(_bool_load(False))
 for _o in ("store", "store_aligned", "store_unaligned"):
     row(_o, "MP", "V", prop="C04")(_bool_store)
-row("load_aligned", "P", "B", prop="C04")(_load(True))
-row("load_unaligned", "P", "B", prop="C04")(_load(False))
+def _load_prop(fn):
+    return "C16" if (fn.cls_type is not None and fn.cls_type.kind == "cbatch") else "C04"
+
+
+row("load_aligned", "P", "B", prop=_load_prop)(_load(True))
+row("load_unaligned", "P", "B", prop=_load_prop)(_load(False))
 for _k in ("PB", "BP"):
     row("store_aligned", _k, "V", prop="C04")(_store(True))
     row("store_unaligned", _k, "V", prop="C04")(_store(False))
